@@ -31,7 +31,14 @@ def main():
                 r2 = run(sid, extra)
                 det[sid]['also'] = dict(check=extra, **r2)
         print(sid, prop, r['exit'], len(r['violated']), flush=True)
-        json.dump(det, open(det_file, 'w'), indent=1, sort_keys=True)
+        # several instances may run side by side: merge under a lock
+        import fcntl
+        with open(det_file + '.lock', 'w') as lk:
+            fcntl.flock(lk, fcntl.LOCK_EX)
+            cur = json.load(open(det_file)) if os.path.exists(det_file) else {}
+            cur[sid] = det[sid]
+            det = cur
+            json.dump(det, open(det_file, 'w'), indent=1, sort_keys=True)
     lines = ["# Seeded changes and the checks that catch them", "",
              "Each directory holds `patch.diff` (apply with `git -C /repo apply`), `demo.py` (exits 0 without the patch, non-zero with it), "
              "`notes.md` (the author's description) and `meta.json` (what it breaks, what it needs to manifest, how it was confirmed).",
